@@ -22,9 +22,10 @@ func init() {
 			"(R8) the width decision tables of varint.Unpack16/32/64 that the number and length-prefix getters rely on to reject oversized values (shared with C10-R2). " +
 			"(R9) WriteToSlice reports 'not emptied' only when bytes are left over: that exit is reachable only across a strict comparison 'target length < compartment length' (an exact fit falls through to the emptied exit). " +
 			"(R10) narrowing integer conversions in package container are range-tested first or named exceptions. " +
+			"(R11) PeekContainer returns no container only across a test that the (remaining) size is non-zero - negative request or bytes missing -, so a request for zero bytes yields an empty container. " +
 			"NOT decided: byte-queue equivalence over arbitrary operation sequences.",
 		Rules: []ruleFn{c16R1, c16R2, c16R3, c16R4, c16R5, c16R6, c16R7, func(c *Ctx, r *Report) { unpackWidthRule(c, r, "C16-R8") }, c16R9,
-			func(c *Ctx, r *Report) { narrowingRule(c, r, "C16-R10", []string{"container"}, map[string]string{"container.(*Container).GetNextBlockAsContainer / uint64 -> int": "the callee GetAsContainer rejects negative sizes with an error (decision table C16-R3)"}) }},
+			func(c *Ctx, r *Report) { narrowingRule(c, r, "C16-R10", []string{"container"}, map[string]string{"container.(*Container).GetNextBlockAsContainer / uint64 -> int": "the callee GetAsContainer rejects negative sizes with an error (decision table C16-R3)"}) }, c16R11},
 	})
 }
 
